@@ -116,7 +116,7 @@ def run_case(case, ctx):
         # history: the same aggregations on a subset taken from the grid that has just been aggregated on
         idx = sorted({i % len(faces) for i in sub})
         sda = da.isel(n_face=idx)
-        _judge(ux, sda.uxgrid, sda, np.asarray(sda.values), case, ctx, fails, ":subset-after-aggregation")
+        _judge(ux, sda.uxgrid, sda, np.array(sda.values, copy=True), case, ctx, fails, ":subset-after-aggregation")
     return fails
 
 
@@ -161,4 +161,8 @@ def _judge(ux, g, da, arr, case, ctx, fails, tag):
                     f"element {k} (nodes {elems[k]}, size {len(elems[k])}) index {idx.tolist()}: got {g64[tuple(idx)]!r} expected {exp[tuple(idx)]!r}; dtype {spec['dtype']}",
                 )
             )
+        ctx.ev("input_unchanged")
+        if datagen.modified(da, arr):
+            fails.append(Failure("input_unchanged", site, "data-modified", f"topological_{agg} changed the variable it was called on: {np.asarray(da.values).ravel()[:4]} vs {arr.ravel()[:4]}"))
+            return fails
     return fails
